@@ -2,8 +2,9 @@ package gensim
 
 import (
 	"fmt"
-	"os"
 	"math/rand/v2"
+	"os"
+	"path"
 	"sort"
 	"strings"
 
@@ -618,6 +619,12 @@ func CheckC17(c *Ctx) (*Outcome, error) {
 				c.Stats.Add("c17.prefix_sibling_worlds", 1)
 			}
 		}
+		if i%4 == 2 && len(spec.LineDirectives) == 0 {
+			// the first converter is declared in a file that another generator emitted
+			k0 := &spec.Convs[0]
+			spec.ForeignHeader = map[string]bool{path.Join(k0.Dir, k0.File): true}
+			c.Stats.Add("c17.foreign_header_worlds", 1)
+		}
 		hs, err := C17Cases(c, rng, spec, i < nDisk, nArgv)
 		if err != nil {
 			return nil, err
@@ -680,7 +687,7 @@ func CheckC17(c *Ctx) (*Outcome, error) {
 		return nil, err
 	}
 	out.Coverage = map[string]any{
-		"rule": "per world: every non-empty subset of converters made defective at a drawn stage (exhaustive for <=4 converters) over pre-existing outputs and changed healthy inputs; every mutating disk call of the fault-free run x every fault kind, from a clean tree and over earlier outputs; success runs from a clean tree (directories created as needed, incl. sibling output directories whose names are string prefixes of each other) judged against the layout spec, not against the program's own run; drawn CLI argument vectors. Non-trivial = a defective subset, a fired disk fault, or an argv case; distinct = distinct (world hash, defective set+stages, fault attachment, argv, expectation) tuples, counted",
+		"rule":            "per world: every non-empty subset of converters made defective at a drawn stage (exhaustive for <=4 converters) over pre-existing outputs and changed healthy inputs; every mutating disk call of the fault-free run x every fault kind, from a clean tree and over earlier outputs; success runs from a clean tree (directories created as needed, incl. sibling output directories whose names are string prefixes of each other) judged against the layout spec, not against the program's own run; drawn CLI argument vectors. Non-trivial = a defective subset, a fired disk fault, or an argv case; distinct = distinct (world hash, defective set+stages, fault attachment, argv, expectation) tuples, counted",
 		"exhaustive_note": "exhaustive per world over converter subsets (n<=4) and over (disk call x fault kind); worlds themselves are sampled",
 	}
 	return out, nil
